@@ -68,10 +68,14 @@ package message
 //@   ensures forall j int :: 0 <= j && j < old(metaLen(b, requestID)) ==> b.outgoingResponses[requestID][j] == old(b.outgoingResponses[requestID][j])
 //@   ensures forall r graphsync.RequestID :: r != requestID ==> (r in b.outgoingResponses) == old(r in b.outgoingResponses) && b.outgoingResponses[r] == old(b.outgoingResponses[r])
 //@ -- C03: the status recorded for the request is the last one given; the request will appear in the message even without links
+//@ -- C05: ... except that a TERMINAL status waiting in this message is never replaced by a non-terminal one (the status
+//@ -- operation of a later update or pause): the terminal status is what retires the request on both peers
 //@ func Builder.AddResponseCode
 //@   requires b != nil && b.completedResponses != nil && b.outgoingResponses != nil
 //@   modifies b.completedResponses[*], b.outgoingResponses[*]
-//@   ensures requestID in b.completedResponses && b.completedResponses[requestID] == status && requestID in b.outgoingResponses
+//@   ensures requestID in b.completedResponses && requestID in b.outgoingResponses
+//@   ensures b.completedResponses[requestID] == ite(old(requestID in b.completedResponses) && old(isSuccess(b.completedResponses[requestID]) || isFailure(b.completedResponses[requestID])) && !(isSuccess(status) || isFailure(status)),
+//@                                                  old(b.completedResponses[requestID]), status)
 //@   ensures metaLen(b, requestID) == old(metaLen(b, requestID)) && (forall j int :: 0 <= j && j < metaLen(b, requestID) ==> b.outgoingResponses[requestID][j] == old(b.outgoingResponses[requestID][j]))
 //@   ensures forall r graphsync.RequestID :: r != requestID ==> (r in b.outgoingResponses) == old(r in b.outgoingResponses) && b.outgoingResponses[r] == old(b.outgoingResponses[r])
 //@        && (r in b.completedResponses) == old(r in b.completedResponses) && b.completedResponses[r] == old(b.completedResponses[r])
